@@ -14,7 +14,7 @@ RULE = ("Full-space encodings JW/BK/JKMN through fermion_to_qubit_mapping, both 
         "for n=7..10 (..14 thorough); Hypothesis-generated operators x,y (<=5 terms, <=4 ladder factors, complex coefficients on a "
         "1/32 grid, optionally not touching the top index, optionally constant-only): products, linearity, adjoints, spectrum of "
         "enc(x+x^) vs the Fock-space matrix written from the definition, JW matrix equal to that matrix. scBK: generated operators "
-        "that conserve N_alpha and N_beta parity, n in {4,6,8}, every n_electrons 1..n-1 and admissible spin: spectrum on the "
+        "that conserve N_alpha and N_beta parity, n in {4,6,8}, every n_electrons 0..n and admissible spin (spin also as numpy integer): spectrum on the "
         "(N, N_alpha) parity sector, products, linearity, adjoints; parity-breaking operators must be refused. HCB: random "
         "spin-free Hermitian molecular-form Hamiltonians (real orbitals with 8-fold symmetric ERIs, and the complex-orbital family "
         "whose ERIs only obey (pq|rs)=(rs|pq)=conj((qp|sr)), real and complex coefficients), M=1..5, and real molecules: spectrum on the "
@@ -172,8 +172,9 @@ def parity_op(draw, M, max_terms):
 
 
 def sectors_of(n):
+    """Every (n_electrons, spin) with 0 <= n_alpha, n_beta <= n/2, boundary sectors n_electrons = 0 and n included."""
     out = []
-    for ne in range(1, n):
+    for ne in range(0, n + 1):
         for spin in range(-ne, ne + 1):
             if (ne + spin) % 2:
                 continue
@@ -186,10 +187,12 @@ def sectors_of(n):
 @st.composite
 def scbk_cases(draw, sizes):
     n = draw(st.sampled_from(sizes))
-    ne, spin = draw(st.sampled_from(sectors_of(n)))
+    secs = sectors_of(n)
+    ne, spin = draw(st.sampled_from(secs + [(0, 0), (n, 0)]))      # boundary sectors twice as likely
     M = n // 2 - 1 if draw(one_in(4)) else n // 2       # sometimes leave the top spatial orbital untouched
+    # "np": which of n_electrons / spin is handed over as a numpy integer (n_electrons: documented refusal; spin: must work)
     return {"n": n, "ne": ne, "spin": spin, "utd": draw(st.booleans()), "x": draw(parity_op(M, 4)), "y": draw(parity_op(M, 2)),
-            "a": draw(coeff()), "b": draw(coeff())}
+            "a": draw(coeff()), "b": draw(coeff()), "np": draw(st.sampled_from(["none"] * 12 + ["spin"] * 3 + ["ne"]))}
 
 
 @st.composite
@@ -495,9 +498,13 @@ def tangelo_documents_refusal(terms):
 
 def scbk_enc(terms, case, what):
     n = case["n"]
+    ne = np.int64(case["ne"]) if case.get("np") == "ne" else case["ne"]
+    spin = np.int64(case["spin"]) if case.get("np") == "spin" else case["spin"]
     try:
-        qop = f2q(terms, "scbk", n, case["ne"], case["utd"], case["spin"])
+        qop = f2q(terms, "scbk", n, ne, case["utd"], spin)
     except ValueError as e:
+        if case.get("np") == "ne" and str(e) == "Number of electrons should be an integer.":
+            raise Skip("scBK refuses a numpy integer n_electrons (documented ValueError)")
         if str(e).startswith("Invalid operator: input fermion operator does not conserve"):
             if tangelo_documents_refusal(terms):
                 raise Skip("scBK refuses operator whose S_z changes by an odd amount (documented ValueError)")
@@ -539,6 +546,10 @@ def scbk(ctx):
             raise Fail(f"scBK n={n} ne={ne} spin={spin} utd={utd}: enc(x^) differs from enc(x)^ by {d}", sig="scbk:adjoint")
         modes = H.modes_of(tx)
         lab = {f"n={n}", f"utd={utd}", f"sector:N%2={ne % 2},Na%2={na % 2}"}
+        if ne in (0, n):
+            lab.add("boundary:n_electrons=" + ("0" if ne == 0 else "n"))
+        if case.get("np") == "spin":
+            lab.add("numpy-integer-spin")
         if spin < 0:
             lab.add("negative-spin")
         if ne % 2:
